@@ -58,6 +58,19 @@ CLAIMED["C07"] = dict(
     text="Theorems (closed): expand_is_rename, expand_include_inv, sortZ_sorted/sortZ_perm (modes taken in increasing order), expand_modes, expand_independent_of_history / exec_stmt_history_independent (every call yields the same operations), arity/keyword refusals. Layouts with nested includes, relative/absolute/.. paths and repeated include lines are loaded from three working directories, compared with the model's include resolution and inlining and with the textually inlined program.",
     note=LOADER_NOTE + " The operating system's path resolution is trusted; the model normalises paths lexically (symlinks are outside the model).", ref="5 C07")
 
+CLAIMED["C08"] = dict(
+    technique="Coq proof (registers exact; function applied in ANY listed order = arithmetic value of the written expression; plain arguments unchanged) + differential correspondence in-process and under several hash seeds",
+    text="Theorems (closed): c08_argument (an argument mentioning registers becomes a transform over exactly the written registers and, for every duplicate-free listing of them, the function applied to the measurement values in the listed order is the arithmetic value of the written expression), c08_plain_argument, transform_pairing / transform_order_irrelevant, eval_regs, exec_stmt_args (positional and keyword alike). The implementation's RegRefTransform objects are compared with the model (register set; func called with values in ITS listed order = model term at sample points) and across PYTHONHASHSEED values.",
+    note=LOADER_NOTE + " sympy.lambdify is trusted. Mixed register+parameter arguments and registers inside keyword lists are outside the quantifier and not generated. A register stored in a variable first (float x = q0) is outside `env_plain` and not generated.", ref="5 C08")
+CLAIMED["C18"] = dict(
+    technique="Coq proof (lexer: comments, line ends; parser/evaluator blind to NEWLINE/TAB text and positions; blank lines) + metamorphic and differential correspondence over combinations of layout edits [partial: space runs and final newline by correspondence only]",
+    text="Theorems (closed): comment_step (a '#' at a token start swallows the rest of the line as one skipped token), newline_step_LF/CR/CRLF, parser_layout_blind and denote_position_blind (token streams differing only in NEWLINE/TAB text and positions give the same program), pprogram_skips_newline / pscript_leading_newlines, avoids_sound with the concrete no-LF/CR/#/space facts for every token rule. Each generated variant (comments, blank lines, 1-3 spaces, LF/CRLF/CR, tab vs four spaces, final newline) is loaded by implementation and model and must equal the original's program. PARTIAL: the general separation lemma for space runs between arbitrary tokens and the final-newline clause are not proved (correspondence only). Recorded finding D29 (comment/blank line right after a loop header).",
+    note="Trusted: Coq kernel; T1; extraction + driver; harness. The Python lexer is tied to the model lexer by C14's differential.", ref="5 C18")
+CLAIMED["C19"] = dict(
+    technique="Coq proof (order-independence of every modelled set-iteration site) + translator obligation listing the set-iteration sites of the sources + differential runs in separate interpreters under 8/64 hash seeds",
+    text="Theorems (closed): set_sites_ok (the order-sensitive uses of Python sets in the sources are exactly the listed five; regenerated by T3 each run), transform_order_irrelevant / transform_pairs_order_irrelevant (the documented freedom: register listing order, always paired with the function), expand_include_modes_order + sortZ_perm_eq (include mode pairing independent of set order). Scripts with several overlapping-name parameters / registers per argument and includes on large unordered modes are loaded and serialised under several PYTHONHASHSEED values; observations and dump texts must be identical.",
+    note="Trusted: Coq kernel; T3 (syntactic detection of set iteration: .free_symbols, .modes, set(...)-bound names used in for/list/zip/str); harness. 2^32 seeds cannot be enumerated; sympy's own canonical ordering is trusted to be hash-independent.", ref="5 C19")
+
 NOT_YET = {
 }
 
